@@ -15,12 +15,12 @@ Done == Len(hist) = GenLen
 Entry ==
     CASE last'.a = "push" ->
             LET u == Len(ops') IN
-            [a |-> "push", r |-> last'.r, ud |-> u, kind |-> ops'[u].kind, f |-> ops'[u].f,
+            [a |-> "push", r |-> last'.r, ud |-> u, tag |-> ops'[u].tag, kind |-> ops'[u].kind, f |-> ops'[u].f,
              off |-> opx'[u].off, bytes |-> opx'[u].bytes, len |-> ops'[u].len, tgt |-> ops'[u].tgt,
              bad |-> ops'[u].bad, ok |-> last'.ok]
       [] last'.a = "pop" /\ last'.some ->
             LET c == cqs'[Len(cqs')] IN
-            [a |-> "pop", r |-> last'.r, some |-> TRUE, ud |-> c.ud, res |-> c.res, data |-> c.data,
+            [a |-> "pop", r |-> last'.r, some |-> TRUE, ud |-> c.ud, tag |-> c.tag, res |-> c.res, data |-> c.data,
              amb |-> last'.amb, files |-> fs']
       [] last'.a = "shimw" ->
             [a |-> "shimw", f |-> last'.f, off |-> last'.off,
